@@ -461,6 +461,8 @@ type c41tEval struct {
 	n     *c41tNode
 	asg   map[string]bool
 	depth int
+	body  ast.Node // enclosing function body: local bool variables assigned once are followed to their definition
+	deps  *lfDeps
 }
 
 func (e *c41tEval) isSubj(x ast.Expr) bool {
@@ -649,7 +651,31 @@ func (e *c41tEval) cond(x ast.Expr) (bool, bool) {
 			}
 			return false, false
 		}
+	case *ast.Ident:
+		// a local bool variable with a single definition: has := len(v.f) > 0
+		if v, ok := e.info.Uses[b].(*types.Var); ok && !v.IsField() && e.body != nil && e.depth < 8 {
+			if e.deps == nil {
+				e.deps = lfBuild(e.info, e.body, nil)
+			}
+			if ds := e.deps.deps[v]; len(ds) == 1 {
+				sub := *e
+				sub.depth++
+				return sub.cond(ds[0])
+			}
+		}
 	case *ast.CallExpr:
+		if m := e.nullaryOnSubj(b); m != nil && !e.t.family[m.Name()] {
+			// some other nullary bool method of the child: decided only if its body can be interpreted
+			return e.t.evalPred(m, e.n, e.asg, e.depth+1)
+		}
+		if len(b.Args) == 1 && e.isSubj(b.Args[0]) {
+			// a helper predicate keep(child)
+			if fn := Callee(e.info, b); fn != nil && e.t.c.P.Decl(fn) != nil {
+				if sig, _ := fn.Type().(*types.Signature); sig != nil && sig.Recv() == nil && sig.Params().Len() == 1 && !sig.Variadic() {
+					return e.t.evalPredAt(fn, 0, e.n, e.asg, e.depth+1)
+				}
+			}
+		}
 		if m := e.nullaryOnSubj(b); m != nil && e.t.family[m.Name()] {
 			if v, ok := e.t.evalPred(m, e.n, e.asg, e.depth+1); ok {
 				return v, true
@@ -679,15 +705,20 @@ func (t *c41tTree) uniform(n *c41tNode, v bool) map[string]bool {
 
 // evalPred interprets a predicate-family method of node n under the assignment: if/return/range-arm statements only.
 func (t *c41tTree) evalPred(m *types.Func, n *c41tNode, asg map[string]bool, depth int) (bool, bool) {
+	return t.evalPredAt(m, -1, n, asg, depth)
+}
+
+// evalPredAt: the same for a function whose subject is its idx-th parameter (idx -1: the receiver).
+func (t *c41tTree) evalPredAt(m *types.Func, idx int, n *c41tNode, asg map[string]bool, depth int) (bool, bool) {
 	fd, info := t.c.P.Decl(m), t.infoOf(m)
 	if fd == nil || fd.Body == nil || info == nil || depth > 8 {
 		return false, false
 	}
-	recv := c41tParamObj(info, fd, -1)
-	if recv == nil {
+	recv := c41tParamObj(info, fd, idx)
+	if recv == nil || t.nodeOf(recv.Type()) != n {
 		return false, false
 	}
-	e := &c41tEval{t: t, info: info, subj: c41tAliases(info, fd.Body, recv), n: n, asg: asg, depth: depth}
+	e := &c41tEval{t: t, info: info, subj: c41tAliases(info, fd.Body, recv), n: n, asg: asg, depth: depth, body: fd.Body}
 	var exec func(list []ast.Stmt) (returned, val, ok bool)
 	exec = func(list []ast.Stmt) (bool, bool, bool) {
 		for _, s := range list {
@@ -742,7 +773,7 @@ func (t *c41tTree) evalPred(m *types.Func, n *c41tNode, asg map[string]bool, dep
 				if !ok || info.Defs[vid] == nil {
 					return false, false, false
 				}
-				ce := &c41tEval{t: t, info: info, subj: map[types.Object]bool{info.Defs[vid]: true}, n: ch, depth: depth + 1}
+				ce := &c41tEval{t: t, info: info, subj: map[types.Object]bool{info.Defs[vid]: true}, n: ch, depth: depth + 1, body: fd.Body}
 				ce.asg = t.uniform(ch, true)
 				hi, ok1 := ce.cond(ifs.Cond)
 				ce.asg = t.uniform(ch, false)
@@ -959,13 +990,16 @@ func (t *c41tTree) ruleP1b(db *packages.Package) {
 				return true
 			}
 			aliases := c41tAliases(info, fd.Body, v)
-			mentions := func(e ast.Expr) bool {
+			var deps *lfDeps
+			mentions := func(e ast.Expr) bool { // directly, or through local variables computed from the child
+				if deps == nil {
+					deps = lfBuild(info, fd.Body, nil)
+				}
 				found := false
-				ast.Inspect(e, func(y ast.Node) bool {
+				deps.Reach(e, func(y ast.Node) {
 					if id, ok := y.(*ast.Ident); ok && aliases[info.Uses[id]] {
 						found = true
 					}
-					return !found
 				})
 				return found
 			}
@@ -979,7 +1013,7 @@ func (t *c41tTree) ruleP1b(db *packages.Package) {
 					return true
 				}
 				key := t.funcKey(db, pk, fd) + ":" + u.name
-				ev := &c41tEval{t: t, info: info, subj: aliases, n: u, asg: t.uniform(u, false)}
+				ev := &c41tEval{t: t, info: info, subj: aliases, n: u, asg: t.uniform(u, false), body: fd.Body}
 				if _, ok := ev.cond(ifs.Cond); !ok {
 					return true // not an emptiness test of the child (some other condition on it)
 				}
@@ -1123,7 +1157,7 @@ func (t *c41tTree) ruleP1c(db *packages.Package) {
 			if subj == nil || several {
 				return true
 			}
-			ev := &c41tEval{t: t, info: info, subj: c41tAliases(info, fd.Body, subj), n: u, asg: t.uniform(u, false)}
+			ev := &c41tEval{t: t, info: info, subj: c41tAliases(info, fd.Body, subj), n: u, asg: t.uniform(u, false), body: fd.Body}
 			if _, ok := ev.cond(ifs.Cond); !ok {
 				return true // some other condition
 			}
@@ -1623,6 +1657,7 @@ type c41tKeySite struct {
 	fn     string
 	pos    token.Pos
 	store  bool
+	del    bool
 	exempt bool
 	norm   map[string]bool
 }
@@ -1666,7 +1701,7 @@ func (t *c41tTree) ruleP4(db *packages.Package) {
 			}
 			return true
 		})
-		record := func(coll ast.Expr, key ast.Expr, at token.Pos, store bool) {
+		record := func(coll ast.Expr, key ast.Expr, at token.Pos, store, del bool) {
 			tf, f := fieldOf(coll)
 			if tf == "" {
 				return
@@ -1674,7 +1709,7 @@ func (t *c41tTree) ruleP4(db *packages.Package) {
 			if deps == nil {
 				deps = lfBuild(info, fd.Body, nil)
 			}
-			st := &c41tKeySite{fn: t.funcKey(db, pk, fd), pos: at, store: store, norm: map[string]bool{}}
+			st := &c41tKeySite{fn: t.funcKey(db, pk, fd), pos: at, store: store, del: del, norm: map[string]bool{}}
 			deps.Reach(key, func(n ast.Node) {
 				switch y := n.(type) {
 				case *ast.CallExpr:
@@ -1700,10 +1735,10 @@ func (t *c41tTree) ruleP4(db *packages.Package) {
 		ast.Inspect(fd.Body, func(x ast.Node) bool {
 			switch y := x.(type) {
 			case *ast.IndexExpr:
-				record(y.X, y.Index, y.Pos(), stores[ast.Expr(y)])
+				record(y.X, y.Index, y.Pos(), stores[ast.Expr(y)], false)
 			case *ast.CallExpr:
 				if IsBuiltinCall(info, y, "delete") && len(y.Args) == 2 {
-					record(y.Args[0], y.Args[1], y.Pos(), false)
+					record(y.Args[0], y.Args[1], y.Pos(), false, true)
 				}
 			}
 			return true
@@ -1763,6 +1798,8 @@ func (t *c41tTree) ruleP4(db *packages.Package) {
 				what := "looks up"
 				if bad.store {
 					what = "stores"
+				} else if bad.del {
+					what = "deletes"
 				}
 				c.Bad("C41-P4", key, bad.pos, fmt.Sprintf("%s %s in %s with a key that does not pass through %s, while the entries are stored under keys that do: "+
 					"an entry whose name contains characters the normaliser changes is never found (a revoke leaves it behind, a lookup misses it)", fn, what, tf, strings.Join(wl, ", ")))
